@@ -16,6 +16,7 @@ package main
 import (
 	"fmt"
 	"math"
+	"strings"
 
 	"github.com/golang/geo/r3"
 	"github.com/golang/geo/s1"
@@ -266,7 +267,95 @@ type state struct {
 	maxFanErr float64
 	maxOraErr float64
 	maxRelTiny float64
+	maxGBErr  float64
+	maxCenErr float64
 	rejected  int
+	fan       fanCov // branch coverage of the triangle fan over all loops, rotations and inverses evaluated
+	fanLoopsWith map[string]int
+	fanReplicaMismatch int
+	areaDecisions map[string]int
+}
+
+// simple reports that no two vertices coincide and no two non-adjacent edges cross (exact predicates).
+// Loop.Validate in the Go port does not check this (its findAnyCrossing call is still a TODO), and a
+// self-intersecting vertex chain is not a loop in the sense of the property. Brute force, n <= 64.
+func simple(v []s2.Point) bool {
+	n := len(v)
+	if n > 64 {
+		return true // generators of large loops are simple by construction
+	}
+	for i := 0; i < n; i++ {
+		for j := i + 1; j < n; j++ {
+			if v[i] == v[j] {
+				return false
+			}
+			if j == i+1 || (i == 0 && j == n-1) {
+				continue
+			}
+			if s2.CrossingSign(v[i], v[(i+1)%n], v[j], v[(j+1)%n]) == s2.Cross {
+				return false
+			}
+		}
+	}
+	return true
+}
+
+// centroidOf returns Loop.Centroid() together with a tolerance for comparing it with the centroid of
+// another vertex order. TrueCentroid has no documented error bound; it divides each side length s by
+// sin(s), whose absolute error grows like eps/(pi-s)^2 for sides close to 180 degrees, so the
+// tolerance is areaTol(n) + 4e-15/(pi - longest triangle side used by the fan)^2 (derived, not documented).
+func centroidOf(l *s2.Loop) (s2.Point, float64) {
+	maxSide := 0.0
+	s2.VerifC18SurfaceIntegralPoint(l, func(a, b, c s2.Point) s2.Point {
+		for _, d := range []float64{float64(a.Distance(b)), float64(b.Distance(c)), float64(c.Distance(a))} {
+			if d > maxSide {
+				maxSide = d
+			}
+		}
+		return s2.Point{}
+	})
+	gap := math.Pi - maxSide
+	if gap < 1e-9 {
+		gap = 1e-9
+	}
+	return l.Centroid(), areaTol(l.NumVertices()) + 4e-15/(gap*gap)
+}
+
+// noteFan accumulates the branch coverage of the surface-integral fan for one vertex order.
+func (st *state) noteFan(l *s2.Loop) {
+	v := l.Vertices()
+	if len(v) < 3 {
+		return
+	}
+	if _, br := areaBranch(s2.VerifC18SurfaceIntegralFloat64(l, s2.SignedArea), s2.VerifC18TurningAngleMaxError(l), l.IsNormalized); true {
+		st.areaDecisions[[]string{"keep the triangle sum", "sum < maxError and not normalized -> 4*pi", "sum > 4*pi-maxError and normalized -> 0"}[br]]++
+	}
+	fc := fanBranches(v)
+	calls := 0
+	s2.VerifC18SurfaceIntegralFloat64(l, func(a, b, c s2.Point) float64 { calls++; return 0 })
+	if calls != fc.calls {
+		st.fanReplicaMismatch++
+	}
+	st.fan.keep += fc.keep
+	st.fan.move += fc.move
+	st.fan.revert += fc.revert
+	st.fan.third += fc.third
+	st.fan.closing += fc.closing
+	if fc.move > 0 {
+		st.fanLoopsWith["move to V0xVi"]++
+	}
+	if fc.revert > 0 {
+		st.fanLoopsWith["revert to V0"]++
+	}
+	if fc.third > 0 {
+		st.fanLoopsWith["third case (V0 x O)"]++
+	}
+	if fc.closing > 0 {
+		st.fanLoopsWith["closing triangle"]++
+	}
+	if fc.move+fc.revert+fc.third == 0 {
+		st.fanLoopsWith["keep origin only"]++
+	}
 }
 
 func replay(class string, v []s2.Point, extra map[string]interface{}) map[string]interface{} {
@@ -368,7 +457,7 @@ func (st *state) processLoop(g genLoop, full bool) {
 	v := g.v
 	n := len(v)
 	l := s2.LoopFromPoints(append([]s2.Point{}, v...))
-	if err := l.Validate(); err != nil {
+	if err := l.Validate(); err != nil || !simple(v) {
 		st.rejected++
 		c.Class("rejected(invalid): " + g.class)
 		return
@@ -394,6 +483,22 @@ func (st *state) processLoop(g genLoop, full bool) {
 		c.Violate("Loop.Area.range"+g.sfx, "Area outside [0,4pi]", replay(g.class, v, map[string]interface{}{"area": area}))
 	}
 
+	st.noteFan(l)
+	cen, cenTol0 := centroidOf(l)
+	// ---- Gauss-Bonnet self-consistency: Area = 2*pi - TurningAngle (mod 4*pi) within both error bounds
+	{
+		d := math.Abs(area - (2*math.Pi - ta))
+		if d2 := math.Abs(d - 4*math.Pi); d2 < d {
+			d = d2
+		}
+		gbTol := tol + s2.VerifC18TurningAngleMaxError(l)*(1+1e-6) + 8*2.220446049250313e-16
+		if e := d / gbTol; e > st.maxGBErr {
+			st.maxGBErr = e
+		}
+		if d > gbTol {
+			c.Violate("Loop.Area.gaussbonnet"+g.sfx, "Area differs from 2*pi - TurningAngle beyond the documented errors of both", replay(g.class, v, map[string]interface{}{"area": area, "turning_angle": ta, "tol": gbTol}))
+		}
+	}
 	// ---- rotations: TurningAngle bit-identical, same canonical start, Area within tolerance
 	var ks []int
 	if n <= 12 {
@@ -414,6 +519,14 @@ func (st *state) processLoop(g genLoop, full bool) {
 		if dr != dir || (ir+k)%n != i0%n {
 			c.Violate("Loop.CanonicalFirstVertex.rotate"+g.sfx, "canonical first vertex is not the same geometric vertex/direction after rotation", replay(g.class, v, map[string]interface{}{"k": k, "first": i0, "dir": dir, "rot_first": ir, "rot_dir": dr}))
 		}
+		st.noteFan(lr)
+		cr, cenTol1 := centroidOf(lr)
+		cenTol := (cenTol0 + cenTol1) / 2
+		if math.Abs(cr.X-cen.X) > 2*cenTol || math.Abs(cr.Y-cen.Y) > 2*cenTol || math.Abs(cr.Z-cen.Z) > 2*cenTol {
+			c.Violate("Loop.Centroid.rotate"+g.sfx, "Centroid depends on the starting vertex beyond the documented error", replay(g.class, v, map[string]interface{}{"k": k, "centroid": []float64{cen.X, cen.Y, cen.Z}, "rotated": []float64{cr.X, cr.Y, cr.Z}, "tol": 2 * cenTol}))
+		} else if e := math.Max(math.Abs(cr.X-cen.X), math.Max(math.Abs(cr.Y-cen.Y), math.Abs(cr.Z-cen.Z))) / (2 * cenTol); e > st.maxCenErr {
+			st.maxCenErr = e
+		}
 		ar := lr.Area()
 		if e := math.Abs(ar-area) / (2 * tol); e > st.maxRotErr {
 			st.maxRotErr = e
@@ -427,6 +540,13 @@ func (st *state) processLoop(g genLoop, full bool) {
 	li := s2.LoopFromPoints(append([]s2.Point{}, v...))
 	li.Invert()
 	tai, areaI := li.TurningAngle(), li.Area()
+	st.noteFan(li)
+	// the integral of position over the whole sphere is 0: the (area-weighted) centroid of the complement is the negation
+	ci, cenTol1 := centroidOf(li)
+	cenTol := (cenTol0 + cenTol1) / 2
+	if math.Abs(ci.X+cen.X) > 2*cenTol || math.Abs(ci.Y+cen.Y) > 2*cenTol || math.Abs(ci.Z+cen.Z) > 2*cenTol {
+		c.Violate("Loop.Centroid.invert"+g.sfx, "Centroid of the inverted loop is not the negation within the documented error", replay(g.class, v, map[string]interface{}{"centroid": []float64{cen.X, cen.Y, cen.Z}, "inverted": []float64{ci.X, ci.Y, ci.Z}, "tol": 2 * cenTol}))
+	}
 	if !bitsEq(tai, -ta) {
 		c.Violate("Loop.TurningAngle.invert"+g.sfx, "TurningAngle of the inverted loop is not the exact negation", replay(g.class, v, map[string]interface{}{"turning_angle": fmt.Sprintf("%x", ta), "inverted": fmt.Sprintf("%x", tai)}))
 	}
@@ -503,7 +623,12 @@ func (st *state) processLoop(g genLoop, full bool) {
 		st.corrLoop(key, l)
 		st.corrLoop(key+" inverted", li)
 		st.corrInvert(key, l, li)
-		if n <= 12 {
+		if strings.HasPrefix(g.class, "fan ") {
+			// [T] at every start vertex: the origin-switching cases fire only for some rotations
+			for k := 1; k < n; k++ {
+				st.corrLoop(fmt.Sprintf("%s rot%d", key, k), s2.LoopFromPoints(rot(v, k)))
+			}
+		} else if n <= 12 {
 			st.corrLoop(key+" rot1", s2.LoopFromPoints(rot(v, 1+rng.Intn(n-1))))
 		}
 	}
@@ -661,7 +786,7 @@ func (st *state) polygons(budget int) {
 }
 
 func run(c *vkit.Collector, rng *vkit.Rng, budget int) {
-	st := &state{c: c, rng: rng}
+	st := &state{c: c, rng: rng, fanLoopsWith: map[string]int{}, areaDecisions: map[string]int{}}
 	// empty and full loops
 	for _, sp := range []struct {
 		name string
@@ -682,6 +807,16 @@ func run(c *vkit.Collector, rng *vkit.Rng, budget int) {
 			c.Violate("Loop.Area.complement", "empty/full loop: areas do not sum to 4*pi", sp.name)
 		}
 	}
+	// loops that drive the triangle fan through all its origin-switching cases: always with [T]
+	for _, g := range fanLoops(rng, budget) {
+		st.processLoop(g, true)
+	}
+	// thin chevrons in the ambiguity band of Area: [S] on all, [T] on the first few
+	chev, inBand := chevronLoops(rng, 1500*budget)
+	for i, g := range chev {
+		st.processLoop(g, i < 6*budget)
+	}
+	c.Extra["thin chevrons"] = fmt.Sprintf("%d candidates, %d with the raw triangle sum within 3e-14 of 0 or +-4*pi, %d evaluated", 1500*budget, inBand, len(chev))
 	gens := generate(rng, 3*budget)
 	corrBudget := 70 * budget
 	for i, g := range gens {
@@ -701,6 +836,12 @@ func run(c *vkit.Collector, rng *vkit.Rng, budget int) {
 	c.Extra["max |A-A_rot| / tol"] = st.maxRotErr
 	c.Extra["max |A-fan| / tol"] = st.maxFanErr
 	c.Extra["max |A-oracle| / tol"] = st.maxOraErr
+	c.Extra["max |A-(2pi-TurningAngle)| / tol"] = st.maxGBErr
+	c.Extra["max |Centroid-Centroid_rot| / tol"] = st.maxCenErr
+	c.Extra["fan branch coverage (decisions over all evaluated vertex orders)"] = map[string]int{"keep origin": st.fan.keep, "move to V0xVi": st.fan.move, "revert to V0": st.fan.revert, "third case (V0 x O)": st.fan.third, "closing triangle": st.fan.closing}
+	c.Extra["fan branch coverage (vertex orders reaching the case)"] = st.fanLoopsWith
+	c.Extra["fan replica/implementation call-count mismatches"] = st.fanReplicaMismatch
+	c.Extra["Area decision reached (all evaluated vertex orders)"] = st.areaDecisions
 	c.Extra["max relative error of tiny loops vs oracle"] = st.maxRelTiny
 	c.Extra["tolerance"] = "per area value (1e-14*N + 1e-14)*(1+1e-6): 2N triangles x 5e-15 (PointArea/GirardArea doc); sums and differences of two areas use twice that"
 	c.Extra["rejected_invalid_loops"] = st.rejected
